@@ -1,7 +1,7 @@
 use crate::transport::types::{EntityId, SequenceNumber};
 
 use super::super::{
-    error::RtpsMessageResult,
+    error::{RtpsMessageError, RtpsMessageResult},
     overall_structure::{
         Submessage, SubmessageHeaderRead, SubmessageHeaderWrite, TryReadFromBytes, Write,
         WriteIntoBytes,
@@ -24,13 +24,18 @@ impl HeartbeatFragSubmessage {
         mut data: &[u8],
     ) -> RtpsMessageResult<Self> {
         let endianness = submessage_header.endianness();
-        Ok(Self {
+        let heartbeat_frag = Self {
             reader_id: EntityId::try_read_from_bytes(&mut data, endianness)?,
             writer_id: EntityId::try_read_from_bytes(&mut data, endianness)?,
             writer_sn: SequenceNumber::try_read_from_bytes(&mut data, endianness)?,
             last_fragment_num: FragmentNumber::try_read_from_bytes(&mut data, endianness)?,
             count: Count::try_read_from_bytes(&mut data, endianness)?,
-        })
+        };
+        // 8.3.7.6.3 Validity: writerSN and lastFragmentNum must be positive
+        if heartbeat_frag.writer_sn <= 0 || heartbeat_frag.last_fragment_num == 0 {
+            return Err(RtpsMessageError::InvalidData);
+        }
+        Ok(heartbeat_frag)
     }
 
     pub fn _reader_id(&self) -> EntityId {
